@@ -1,10 +1,11 @@
 SPECIFICATION Spec
 CONSTANTS
-  Modes = {"expr"}
+  Modes = {"expr", "lit", "sig"}
   Names <- LvNames1
   Nums <- LvNums1
   Atoms <- LvAtoms1
   Opqs <- NoneSet
+  LitTok = 2
   UnOps <- AllUn
   BinOps <- MinBin
   BoolOps <- AllBool
@@ -13,9 +14,9 @@ CONSTANTS
   Ctors <- RepCtors
   MaxOps = 2
   MaxTok = 5
-  MaxParams = 0
-  MaxNest = 0
-  Dump = FALSE
+  MaxParams = 3
+  MaxNest = 2
+  Dump = TRUE
 INVARIANT TypeOK
 INVARIANT ExprOK
 INVARIANT SigOK
